@@ -1,5 +1,5 @@
 SPECIFICATION Spec
-CONSTANTS NConn = 2  MaxListen = 3  MaxClose = 2  MaxReads = 0  Fixed = TRUE  ZeroFirst = TRUE  RouteByByte = TRUE
+CONSTANTS NConn = 2  MaxListen = 2  MaxClose = 2  MaxReads = 0  Fixed = TRUE  ZeroFirst = TRUE  RouteByByte = TRUE
 INVARIANT NoViolation
 VIEW View
 CHECK_DEADLOCK FALSE
